@@ -8,7 +8,7 @@ import vlib
 from checks import _ll
 
 PROPERTY = "C08"
-LEAN_MODULES = ["TapkeeVerif.Props.C08"]
+LEAN_MODULES = ["TapkeeVerif.Props.C08", "TapkeeVerif.Props.C08Compose"]
 LEAN_EXES = ["model_c08"]
 REQUIRED_THEOREMS = [     # every theorem of the Props module (all MANIFEST-named ones included): deleting one fails the audit
     "TapkeeVerif.C08.lle_M_eq",
@@ -83,6 +83,14 @@ REQUIRED_THEOREMS = [     # every theorem of the Props module (all MANIFEST-name
     "TapkeeVerif.C08.hlle_columns_affine_on_flat_min_k",
     "TapkeeVerif.C08.fromTriplets_perm",
     "TapkeeVerif.C08.fromTripletsD_get",
+    # Props/C08Compose.lean: the stage models (C02 search, C03 k doubling, C08 weight matrix + spectral statement) composed
+    "TapkeeVerif.LleCompose.klle_end_to_end",
+    "TapkeeVerif.LleCompose.klle_end_to_end_brute",
+    "TapkeeVerif.LleCompose.ex_self",
+    "TapkeeVerif.LleCompose.exB1",
+    "TapkeeVerif.LleCompose.exB2",
+    "TapkeeVerif.LleCompose.ex_find",
+    "TapkeeVerif.LleCompose.ex_fwd",
 ]
 
 
